@@ -20,7 +20,7 @@ pub fn gen(r: &mut Rng) -> Value {
     }
     let n = r.below(4);
     let args: Vec<String> = (0..n).map(|_| r.pick(&VALS).to_string()).collect();
-    json!({"args": args, "wrapper": r.below(4)})
+    json!({"args": args, "wrapper": r.below(5)})
 }
 
 fn quote(s: &str) -> String {
@@ -71,7 +71,8 @@ fn run_fn_cond(f: &Value) -> Option<Value> {
     let body_val = f["body_val"].as_str()?;
     let ret = f["ret"].as_str()?;
     let ret_val = f["ret_val"].as_str()?;
-    let mut lines = vec!["fn probe_fn".to_string(), format!("inner = set \"{}\"", body_val)];
+    // the function records the argument it was given at every call: all consumers must hand it over like a direct call
+    let mut lines = vec!["fn probe_fn".to_string(), format!("inner = set \"{}\"", body_val), "seen = set \"${seen}|${1}\"".to_string()];
     if f["nested_if"].as_bool().unwrap_or(false) {
         lines.push("if true".to_string());
     }
@@ -84,9 +85,11 @@ fn run_fn_cond(f: &Value) -> Option<Value> {
         lines.push("end".to_string());
     }
     lines.push("end".to_string());
-    lines.push("direct = probe_fn".to_string());
-    lines.push("if probe_fn\nvia_if = set yes\nelse\nvia_if = set no\nend".to_string());
-    lines.push("via_not = not probe_fn".to_string());
+    lines.push("direct = probe_fn a1".to_string());
+    lines.push("if probe_fn a2\nvia_if = set yes\nelse\nvia_if = set no\nend".to_string());
+    lines.push("via_not = not probe_fn a3".to_string());
+    lines.push("if false\nvia_elseif = set skipped\nelseif probe_fn a4\nvia_elseif = set yes\nelse\nvia_elseif = set no\nend".to_string());
+    lines.push("via_while = set no\nwhile probe_fn a5\nvia_while = set yes\ngoto :wend\nend\n:wend".to_string());
     let script = lines.join("\n");
     let mut context = Context::new();
     duckscriptsdk::load(&mut context.commands).ok()?;
@@ -96,8 +99,14 @@ fn run_fn_cond(f: &Value) -> Option<Value> {
             let want = truthy(&direct);
             let got_if = ctx.variables.get("via_if").cloned();
             let got_not = ctx.variables.get("via_not").cloned();
-            if got_if.as_deref() != Some(if want { "yes" } else { "no" }) || got_not != Some((!want).to_string()) {
-                Some(json!({"script": script, "what": "the branch taken differs from the one determined by the direct call's output", "direct_output": direct, "via_if": got_if, "via_not": got_not}))
+            let yn = Some(if want { "yes" } else { "no" });
+            let got_elseif = ctx.variables.get("via_elseif").cloned();
+            let got_while = ctx.variables.get("via_while").cloned();
+            let seen = ctx.variables.get("seen").cloned();
+            if got_if.as_deref() != yn || got_not != Some((!want).to_string()) || got_elseif.as_deref() != yn || got_while.as_deref() != yn {
+                Some(json!({"script": script, "what": "the branch taken differs from the one determined by the direct call's output", "direct_output": direct, "via_if": got_if, "via_not": got_not, "via_elseif": got_elseif, "via_while": got_while}))
+            } else if seen.as_deref() != Some("|a1|a2|a3|a4|a5") {
+                Some(json!({"script": script, "what": "a function used as a condition was not called once per consumer with the argument written", "seen": seen}))
             } else {
                 None
             }
@@ -122,11 +131,9 @@ fn run_inner(input: &Value) -> Option<Value> {
         0 => format!("out = not {}", call),
         1 => format!("if {}\nout = set yes\nend", call),
         2 => format!("alias rec2 record\nout = rec2 {}", written.join(" ")),
-        _ => format!("done = set false\nwhile not ${{done}} and {}\ndone = set true\nend", "true"),
+        3 => format!("if false\nskipped = set yes\nelseif {}\nout = set yes\nend", call),
+        _ => format!("while {}\nout = set yes\ngoto :wend\nend\n:wend", call),
     };
-    if wrapper == 3 {
-        return None; // the while form is exercised through `not`/`if` (same evaluation path)
-    }
     match runner::run_script(&script, context, None) {
         Ok(_) => {
             let got = calls.lock().unwrap().clone();
